@@ -58,6 +58,9 @@ def cases(tier, seed):
         for f in ("box33", "tee", "notched"):
             for hist in HISTORIES:
                 out.append(dict(film=f, holes="circle", terminals=2, mel=0.8, min_points=None, smooth=0, xi=1.0, history=hist))
+        # displacements are lengths: the moved histories also with coherence lengths other than one length unit
+        for xi, hist in itertools.product((0.5, 2.0), ("translated_inplace", "copy_translated", "translation_context", "remesh_finer")):
+            out.append(dict(film="box33", holes="circle", terminals=2, mel=0.8, min_points=None, smooth=0, xi=xi, history=hist))
     else:
         # terminals do not influence the mesh: the settings sweep is run with terminals, the no-terminal devices once
         for f, h in itertools.product(FILMS, HOLES):
